@@ -385,4 +385,31 @@ theorem proof_nonlast_branch (H : Bytes → Bytes) (t : PTree) :
           exact ⟨p', ch', by simpa using hch'⟩
         · simp [hn] at hlen
 
+/-- a concatenation of equal-length, non-empty chunks determines the chunks: their number, order and multiplicity -/
+theorem flatten_inj_of_length (n : Nat) (hn : 0 < n) :
+    ∀ (rs rs' : List Bytes), (∀ r ∈ rs, r.length = n) → (∀ r ∈ rs', r.length = n) → rs.flatten = rs'.flatten → rs = rs' := by
+  intro rs
+  induction rs with
+  | nil =>
+    intro rs' _ h' he
+    cases rs' with
+    | nil => rfl
+    | cons r t =>
+      have := congrArg List.length he
+      have hr := h' r (by simp)
+      simp only [List.flatten_cons, List.flatten_nil, List.length_append, List.length_nil] at this
+      omega
+  | cons a t ih =>
+    intro rs' h h' he
+    cases rs' with
+    | nil =>
+      have := congrArg List.length he
+      have ha := h a (by simp)
+      simp only [List.flatten_cons, List.flatten_nil, List.length_append, List.length_nil] at this
+      omega
+    | cons b t' =>
+      simp only [List.flatten_cons] at he
+      obtain ⟨hab, htt⟩ := List.append_inj he (by rw [h a (by simp), h' b (by simp)])
+      rw [hab, ih t' (fun r hr => h r (by simp [hr])) (fun r hr => h' r (by simp [hr])) htt]
+
 end SymbolVerif.Sdk.Patricia
